@@ -683,7 +683,23 @@ def rule_r6(ctx) -> List[R.Inst]:
                 return (colof[e.id][1], colof[e.id][2])
             return None
         ci, cv = column_of(st[0].targets[0].slice), column_of(st[0].value)
-        if ci is not None and cv is not None and ci[0] == cv[0] and ci[1] == "num" and cv[1] == "value":
+        # the frame whose rows are stored is the line's group itself: a local derived from it by dropping rows (drop_duplicates,
+        # head, a mask) stores only part of the line — and with drop_duplicates the FIRST of two objects in a slot wins, where the
+        # plain loop lets the later one overwrite
+        dropped = None
+        if ci is not None and cv is not None and ci[0] == cv[0]:
+            fr = ci[0]
+            ds_ = [x.value for x in ast.walk(fn.node) if isinstance(x, ast.Assign) and len(x.targets) == 1 and isinstance(x.targets[0], ast.Name) and x.targets[0].id == fr]
+            if len(ds_) == 1:
+                for c_ in ast.walk(ds_[0]):
+                    if isinstance(c_, ast.Call) and call_name(c_) in ("drop_duplicates", "head", "tail", "sample", "query", "dropna", "nlargest", "nsmallest"):
+                        dropped = c_
+        if dropped is not None:
+            insts.append(R.viol(rid, "slot:store", file, st[0].lineno,
+                                f"the rows stored into the line come from '{unparse(dropped)[:70]}', which drops rows of the line's group: objects "
+                                f"are left out (with drop_duplicates the first of two objects of a slot is kept, the plain loop keeps the last)",
+                                construct=f"rows dropped before the store: {unparse(dropped)[:80]}"))
+        elif ci is not None and cv is not None and ci[0] == cv[0] and ci[1] == "num" and cv[1] == "value":
             insts.append(R.ok(rid, "slot:store", file, st[0].lineno, idiom="seq[num] = value"))
         elif ci is None or cv is None:
             insts.append(R.undec(rid, "slot:store", file, st[0].lineno, f"provenance of index / value in '{unparse(st[0])[:60]}' not resolved"))
